@@ -317,6 +317,34 @@ func runSelfTests(verifDir string) SelfTestResult {
 			res.Failures = append(res.Failures, fmt.Sprintf("false alarm on a correct idiom: %s reported as %v", fn, keysOf(got[fn])))
 		}
 	}
+	// the literal matcher every rule goes through: local names are metavariables, comparison
+	// operands have one order, builder temporaries are literal
+	for _, c := range []struct {
+		actual, pattern string
+		want            bool
+	}{
+		{"φmsg_q == nil", "φm == nil", true},
+		{"nil == φm", "φm == nil", true},
+		{"$id_q == recv.reqID", "recv.reqID == $id", true},
+		{"recv.reqID == $id", "recv.reqID == $id", true},
+		{"recv.reconnMaxTime < recv.reconnTime", "recv.reconnTime > recv.reconnMaxTime", true},
+		{"recv.reconnMaxTime <= recv.reconnTime", "recv.reconnTime > recv.reconnMaxTime", false},
+		{"φa != φb", "φs2 != φs1", true},
+		{"φa != φa", "φs2 != φs1", false},
+		{"$x.Self == $x.Peer", "$info1.Self == $info2.Peer", false},
+		{"$p.Self == $q.Peer", "$info1.Self == $info2.Peer", true},
+		{"$complit.id", "$makeslice.id", false},
+		{"$complit.id", "$complit.id", true},
+		{"$local == nil", "φm == nil", false},
+		{"len(arg1.Body) < 4", "len(arg1.Body) < 4", true},
+		{"4 > len(arg1.Body)", "len(arg1.Body) < 4", true},
+		{"len(arg1.Body) <= 4", "len(arg1.Body) < 4", false},
+	} {
+		res.Cases++
+		if got := litEq(c.actual, c.pattern); got != c.want {
+			res.Failures = append(res.Failures, fmt.Sprintf("litEq(%q, %q) = %v, want %v", c.actual, c.pattern, got, c.want))
+		}
+	}
 	// the two SendMsg implementations: exactly one release-on-error (badSender's)
 	res.Cases++
 	n := 0
